@@ -1235,6 +1235,12 @@ func dynFieldName(v ssa.Value) string {
 			return a.Comment
 		}
 	}
+	if g, isGlobal := u.X.(*ssa.Global); isGlobal {
+		// package-level variable of function type: dyn.<name>
+		if _, isSig := derefType(g.Type()).Underlying().(*types.Signature); isSig {
+			return g.Name()
+		}
+	}
 	fa, ok := u.X.(*ssa.FieldAddr)
 	if !ok {
 		return ""
